@@ -357,6 +357,81 @@ class _ConstMethods(ast.NodeTransformer):
         return node
 
 
+class _PrivateProps:
+    """A private read-only property (`@property def _x(self)`, defined once in the module, no setter / deleter, every access in
+    the module a read of `<self>._x` inside a method) is written as the plain method it is: the decorator is dropped and every
+    read becomes the call `<self>._x()`.  Reading a property IS calling its getter; spelled as a call, the getter is followed like
+    any other helper.  The pinned tree has no private properties: it is unchanged by this pass."""
+    def __init__(self):
+        self.converted: List[str] = []
+
+    def visit(self, tree: ast.Module) -> None:
+        counts: Dict[str, int] = {}
+        for n in ast.walk(tree):
+            if isinstance(n, _FUNCS):
+                counts[n.name] = counts.get(n.name, 0) + 1
+        cands: Dict[str, ast.FunctionDef] = {}
+        for c in ast.walk(tree):
+            if not isinstance(c, ast.ClassDef):
+                continue
+            for st in c.body:
+                if isinstance(st, ast.FunctionDef) and st.name.startswith("_") and not st.name.startswith("__") and counts.get(st.name) == 1 \
+                        and len(st.decorator_list) == 1 and isinstance(st.decorator_list[0], ast.Name) and st.decorator_list[0].id == "property" \
+                        and len(st.args.args) == 1 and not (st.args.vararg or st.args.kwarg or st.args.kwonlyargs or st.args.posonlyargs):
+                    cands[st.name] = st
+        if not cands:
+            return
+        # every mention of the name must be a read on the `self` of an enclosing method
+        uses: Dict[str, List[ast.Attribute]] = {k: [] for k in cands}
+        bad: set = set()
+
+        def scan(node: ast.AST, selfname: Optional[str]) -> None:
+            for ch in ast.iter_child_nodes(node):
+                if isinstance(ch, _FUNCS):
+                    own = ch.args.args[0].arg if ch.args.args and not any(isinstance(d, ast.Name) and d.id == "staticmethod" for d in ch.decorator_list) else None
+                    for d in ch.decorator_list:
+                        scan(d, selfname)
+                    for b in ch.body:
+                        scan_stmt(b, own if own is not None else selfname)
+                    continue
+                scan_stmt(ch, selfname)
+
+        def scan_stmt(node: ast.AST, selfname: Optional[str]) -> None:
+            if isinstance(node, ast.Attribute) and node.attr in cands:
+                if isinstance(node.ctx, ast.Load) and isinstance(node.value, ast.Name) and selfname is not None and node.value.id == selfname:
+                    uses[node.attr].append(node)
+                else:
+                    bad.add(node.attr)
+            if isinstance(node, ast.Constant) and node.value in cands:
+                bad.add(node.value)
+            if isinstance(node, ast.Name) and node.id in cands:
+                bad.add(node.id)
+            scan(node, selfname)
+
+        scan(tree, None)
+        parent: Dict[int, Tuple[ast.AST, str, Optional[int]]] = {}
+        for n in ast.walk(tree):
+            for fld, val in ast.iter_fields(n):
+                if isinstance(val, ast.AST):
+                    parent[id(val)] = (n, fld, None)
+                elif isinstance(val, list):
+                    for i, v in enumerate(val):
+                        if isinstance(v, ast.AST):
+                            parent[id(v)] = (n, fld, i)
+        for name, fn in cands.items():
+            if name in bad or not uses[name]:
+                continue
+            fn.decorator_list = []
+            for a in uses[name]:
+                call = ast.copy_location(ast.Call(func=a, args=[], keywords=[]), a)
+                par, fld, i = parent[id(a)]
+                if i is None:
+                    setattr(par, fld, call)
+                else:
+                    getattr(par, fld)[i] = call
+            self.converted.append(name)
+
+
 class _SplitPairs(ast.NodeTransformer):
     """`a, b = X, Y` with plain-name targets and pure right-hand elements (names, attribute chains, constants, displays of those)
     that mention none of the targets -> `a = X; b = Y`: the same reads in the same order, then the same bindings."""
@@ -1135,6 +1210,9 @@ def normalise(tree: ast.Module) -> ast.Module:
     tree._tpsa_bound_aliases = ba.inlined  # type: ignore[attr-defined]
     cm = _ConstMethods(tree)
     cm.visit(tree)
+    pp = _PrivateProps()
+    pp.visit(tree)
+    tree._tpsa_private_props = pp.converted  # type: ignore[attr-defined]
     _StarDisplays().visit(tree)
     _MapCalls().visit(tree)
     f = _Fold()
